@@ -74,6 +74,7 @@ pub struct Env {
     /// receiver sockets in use (only these are polled after an event)
     pub n_active: usize,
     /// harness socket that sends an end-of-event sentinel to every receiver socket
+    begin_sockets: Vec<Arc<BatchUdpSocket>>,
     sentinel: StdUdp,
     sentinel_rx: StdUdp,
     sentinel_addr: SocketAddr,
@@ -157,6 +158,7 @@ impl Env {
                 s.set_nonblocking(true).unwrap();
                 s
             },
+            begin_sockets: Vec::new(),
             sentinel_rx: sentinel_rx_sock,
             sentinel_addr,
             sentinel_no: 0,
@@ -527,6 +529,12 @@ impl World {
                 return;
             }
         }
+        // sockets this event starts with: a reconnect may replace one, but sibling states
+        // still share the old one, so it must be left clean as well
+        env.begin_sockets.clear();
+        for io in self.conn_io.values() {
+            env.begin_sockets.push(io.socket.clone());
+        }
         let mut poked = false;
         for (id, pend) in self.pending_err.iter() {
             if !*pend {
@@ -555,6 +563,9 @@ impl World {
         // the event's own datagrams were processed before collect() saw its sentinels;
         // one more round delivers the ICMP errors they caused
         env.barrier();
+        for s in env.begin_sockets.drain(..) {
+            let _ = s.get_ref().take_error();
+        }
         self.pending_err.clear();
         for c in self.connections.iter() {
             if let Some(io) = self.conn_io.get(&c.conn_id) {
